@@ -79,35 +79,38 @@ type Scn struct {
 	Chain   string         `json:"chain,omitempty"`    // scenarios sharing a chain run in ONE child process, in order (history-dependent state)
 	Source  string         `json:"source,omitempty"`   // "" = recording reader | bytes | file | bufio | limited : the concrete io.Reader type handed to the workflow
 	Prefix  int            `json:"prefix,omitempty"`   // bytes of unrelated good data already consumed from the source before the call (non-zero position)
+	Repeat  int            `json:"repeat,omitempty"`   // Single: call this many times in a row on the same source; verdicts are compared with the reference on consecutive chunks
 	Note    string         `json:"note,omitempty"`
 }
 
 // Res is what a child observed for one scenario.
 type Res struct {
-	ID         int      `json:"id"`
-	Status     string   `json:"status"` // returned | panic | deadlock | crash | timeout | hang
-	Verdict    bool     `json:"verdict"`
-	Err        string   `json:"err"`
-	HasErr     bool     `json:"has_err"`
-	Crash      string   `json:"crash,omitempty"`
-	ModelKnown bool     `json:"model_known"`
-	ModelOK    bool     `json:"model_ok"`
-	ModelBad   []string `json:"model_bad,omitempty"`
-	ModelAmbig bool     `json:"model_ambig,omitempty"`
-	Problems   []string `json:"problems,omitempty"`
-	Judged     int      `json:"judged"`
-	Reads      int      `json:"reads"`
-	RunCalls   int      `json:"run_calls"`
-	Delivered  int64    `json:"delivered"`
-	PostEvents int      `json:"post_events"`
-	FaultFired bool     `json:"fault_fired"`
-	Sig        string   `json:"sig,omitempty"`
-	Workers    int      `json:"workers"`
-	Leaked     []string `json:"leaked,omitempty"`
-	CensusUnd  bool     `json:"census_undecided,omitempty"`
-	Ms         float64  `json:"ms"`
-	NumCPU     int      `json:"numcpu"`
-	RegistryOK bool     `json:"registry_ok"`
+	ID          int      `json:"id"`
+	Status      string   `json:"status"` // returned | panic | deadlock | crash | timeout | hang
+	Verdict     bool     `json:"verdict"`
+	Err         string   `json:"err"`
+	HasErr      bool     `json:"has_err"`
+	Crash       string   `json:"crash,omitempty"`
+	ModelKnown  bool     `json:"model_known"`
+	ModelOK     bool     `json:"model_ok"`
+	ModelBad    []string `json:"model_bad,omitempty"`
+	ModelAmbig  bool     `json:"model_ambig,omitempty"`
+	Problems    []string `json:"problems,omitempty"`
+	Judged      int      `json:"judged"`
+	Reads       int      `json:"reads"`
+	RunCalls    int      `json:"run_calls"`
+	Delivered   int64    `json:"delivered"`
+	PostEvents  int      `json:"post_events"`
+	FaultFired  bool     `json:"fault_fired"`
+	Sig         string   `json:"sig,omitempty"`
+	Workers     int      `json:"workers"`
+	Leaked      []string `json:"leaked,omitempty"`
+	CensusUnd   bool     `json:"census_undecided,omitempty"`
+	Ms          float64  `json:"ms"`
+	NumCPU      int      `json:"numcpu"`
+	RegistryOK  bool     `json:"registry_ok"`
+	SeqVerdicts []bool   `json:"seq_verdicts,omitempty"` // Single with Repeat: verdict of every call
+	SeqWant     []bool   `json:"seq_want,omitempty"`     // reference verdicts on consecutive chunks
 }
 
 func lfsr64Bytes(seed uint64, n int) []byte {
@@ -248,6 +251,8 @@ func runScenario(sc Scn) Res {
 	log.SetPost(rd.Fired)
 	var src io.Reader = rd
 	var closeSrc func()
+	var bufUnder *bytes.Reader
+	var bufRd *bufio.Reader
 	switch sc.Source {
 	case "", "mon":
 		if sc.Prefix > 0 {
@@ -266,10 +271,16 @@ func runScenario(sc Scn) Res {
 			src = f
 			closeSrc = func() { f.Close(); os.Remove(fn) }
 		}
-	case "bufio":
-		b := bufio.NewReaderSize(bytes.NewReader(full), 4096)
+	case "bufio", "bufiobig":
+		size := 4096
+		if sc.Source == "bufiobig" {
+			size = 1 << 16 // at least as large as small single-shot requests
+		}
+		under := bytes.NewReader(full)
+		b := bufio.NewReaderSize(under, size)
 		_, _ = b.Discard(sc.Prefix)
 		src = b
+		bufUnder, bufRd = under, b
 	case "limited":
 		br := bytes.NewReader(full)
 		_, _ = br.Seek(int64(sc.Prefix), io.SeekStart)
@@ -303,7 +314,20 @@ func runScenario(sc Scn) Res {
 	var verdict bool
 	var err error
 	pan := panicValue(func() {
-		if sc.WF == "Single" {
+		if sc.WF == "Single" && sc.Repeat > 1 {
+			for k := 0; k < sc.Repeat; k++ {
+				v, e := detect.SingleDetect(src, sc.NumByte)
+				res.SeqVerdicts = append(res.SeqVerdicts, v && e == nil)
+				if k == 0 {
+					verdict, err = v, e
+				}
+			}
+			for k := 0; k < sc.Repeat && (k+1)*sc.NumByte <= len(stream); k++ {
+				chunk := stream[k*sc.NumByte : (k+1)*sc.NumByte]
+				p, _ := oracle.Poker(oracle.Bits(gen.Unpack(chunk)), singleM(sc.NumByte*8))
+				res.SeqWant = append(res.SeqWant, p >= 0.01)
+			}
+		} else if sc.WF == "Single" {
 			verdict, err = detect.SingleDetect(src, sc.NumByte)
 		} else {
 			verdict, err = w.Fn(src)
@@ -339,6 +363,10 @@ func runScenario(sc Scn) Res {
 	res.Delivered = rd.Delivered() - int64(sc.Prefix)
 	if sc.Source != "" && sc.Source != "mon" {
 		res.Delivered = -1 // not observable through a foreign reader type
+		if bufRd != nil {
+			// consumed through a bufio.Reader = what left the underlying reader minus what is still buffered
+			res.Delivered = int64(len(full)-bufUnder.Len()-bufRd.Buffered()) - int64(sc.Prefix)
+		}
 	}
 	res.FaultFired = rd.Fired()
 	res.RunCalls = len(log.Events)
